@@ -19,7 +19,7 @@ func TestMain(m *testing.M) {
 const cycAssume = "shard reports obey the invariants a sidecar establishes (processSeries = sum of totals, headSeries >= sum of series, idle-since set iff no target, unknown health implies zero scrapes); max-process-series > 0 (the CLI rejects 0); Go map order is sampled by repeated execution, not enumerated"
 
 func recC01() *vkit.Recorder {
-	r := vkit.Rec("C01", "exploration", "rapid-generated single-cycle scenarios (options x discovered targets x per-shard health scripts and status reports), each executed several times on the real coordinator; non-trivial = a target reported by >=2 in-sync shards, or a list change (new/removed target) on an in-sync shard; distinct = digest of the scenario without its random seed")
+	r := vkit.Rec("C01", "exploration", "rapid-generated single-cycle scenarios (options x discovered targets x per-shard health scripts and status reports), each executed several times on the real coordinator; plus 2-3 cycle histories on one coordinator instance (later cycles derived from the first: shard gone and sizes changed, configuration lost again, unrelated fleet, same again), every cycle judged on its own inputs; non-trivial = a target reported by >=2 in-sync shards, or a list change (new/removed target) on an in-sync shard (for histories: in a later cycle); distinct = digest of the scenario without its random seed")
 	r.Assume(cycAssume)
 	return r
 }
@@ -45,7 +45,7 @@ func TestReplayC01(t *testing.T) {
 // ---- C04
 
 func recC04() *vkit.Recorder {
-	r := vkit.Rec("C04", "exploration", "rapid-generated single-cycle scenarios biased to loaded shards and sizes around both limits; judged per in-sync shard: reported load + weights of newly listed targets < limits; non-trivial = a placement on a shard whose reported load is >= half a limit, or an oversize target present; distinct = scenario digest")
+	r := vkit.Rec("C04", "exploration", "rapid-generated single-cycle scenarios biased to loaded shards and sizes around both limits; judged per in-sync shard: reported load + weights of newly listed targets < limits; plus 2-3 cycle histories on one coordinator instance in which target sizes change between cycles; non-trivial = a placement on a shard whose reported load is >= half a limit, or an oversize target present; distinct = scenario digest")
 	r.Assume(cycAssume, "weight of a moved target = minimum over what reachable source shards report (sound, slightly weaker); series exactly equal to a limit is left unjudged (statement says 'exceeds')")
 	return r
 }
@@ -114,7 +114,7 @@ func TestReplayC05(t *testing.T) {
 // ---- C07
 
 func recC07() *vkit.Recorder {
-	r := vkit.Rec("C07", "exploration", "single-cycle scenarios biased to shard lists mixing idle-expired, idle-fresh, loaded, unready and out-of-sync shards in all positions; every ChangeScale argument of the execution is judged; non-trivial = >=1 idle-expired in-sync shard or a request different from the current count; distinct = scenario digest")
+	r := vkit.Rec("C07", "exploration", "single-cycle scenarios biased to shard lists mixing idle-expired, idle-fresh, loaded, unready and out-of-sync shards in all positions; a directed family 'loaded shards whose settled targets fit nowhere, expired idle shards at the tail', and 2-3 cycle histories; every ChangeScale argument of the execution is judged; non-trivial = >=1 idle-expired in-sync shard or a request different from the current count; distinct = scenario digest")
 	r.Assume(cycAssume, "min <= max (statement); idle-since is either 1000h in the past (expired) or in the future (certainly not expired), never near the boundary")
 	return r
 }
@@ -188,7 +188,7 @@ func TestReplayC07(t *testing.T) {
 // ---- C08
 
 func recC08() *vkit.Recorder {
-	r := vkit.Rec("C08", "exploration", "single-cycle scenarios over subsets of shards x health scripts (unready, either GET failing, push rejected / without effect / accepted, re-check failing) combined with pending work; judged on the complete per-shard request log; non-trivial = >=1 shard not in sync and >=1 in-sync shard with pending work; distinct = scenario digest")
+	r := vkit.Rec("C08", "exploration", "single-cycle scenarios over subsets of shards x health scripts (unready, either GET failing, push rejected / without effect / accepted, re-check failing) combined with pending work; (scripts can also fail the second status request of a cycle), plus 2-3 cycle histories in which a shard loses its configuration again; judged on the complete per-shard request log; non-trivial = >=1 shard not in sync and >=1 in-sync shard with pending work; distinct = scenario digest")
 	r.Assume(cycAssume)
 	return r
 }
